@@ -84,7 +84,7 @@ PROPS = {
                         "decode commutes with slicing for single-byte codecs (element-wise decode model); undecodable records are outside the property"],
     },
     'C07': {
-        'modules': ISOMODS + ['contracts.mciipm_block', 'contracts.mciipm_vbs'],
+        'modules': ISOMODS + ['contracts.mciipm_block', 'contracts.mciipm_vbs', 'contracts.cli_tools'],
         'canaries': [
             (ISO, "        if pds_field_length < 0:  # would move the pointer backwards and never finish\n            raise Iso8583DataError(f'Invalid length for PDS{pds_field_tag}')\n", "", "negative PDS sub-length accepted (hang)", "_pds_to_dict/any"),
             (ISO, "except (struct.error, binascii.Error) as ex:", "except struct.error as ex:", "binascii.Error escapes loads", "loads-hex-bitmap"),
@@ -92,7 +92,7 @@ PROPS = {
         ],
         'assumptions': ["exception sets of the library models are what makes this meaningful: int -> ValueError, decode -> UnicodeDecodeError, struct.unpack -> struct.error, unhexlify -> binascii.Error, strptime -> ValueError, Decimal -> InvalidOperation, s[i] -> IndexError, d[k] -> KeyError; re.match is assumed to terminate; MemoryError / RecursionError / wall-clock `promptly` are out of reach",
                         "loads on arbitrary bytes: per element shape (every configuration shape, any bytes of any length); at message level for EVERY bitmap and ANY configuration by loop invariant (element functions by contract), and end to end for a fixed family of bitmaps; hex-bitmap decoding with an arbitrary bitmap character",
-                        "command-line tools: cli_run is not executed symbolically (argparse / open); they catch exactly MciIpmDataError, which is what IpmReader.__next__ is proved to raise"],
+                        "command-line tools: mci_ipm_to_csv.cli_run and mideu.cli_run are executed from their keyword arguments (argparse not involved; open() = named ghost files; get_config / ipm_info by stub) with a reader that raises the library's data error: they print the diagnostic naming the record and return -1; that the reader raises nothing else is the IpmReader.__next__ contract"],
     },
     'C08': {
         'modules': ISOMODS,
